@@ -8,8 +8,8 @@ PROPS = {
                 variants=["", "gangdeep", "reserve", "swap", "gang", "gangdeep"], coq_scan=["Core", "Oracles/CoreC01.v", "Props/C01.v", "Props/C01b.v", "Base"], level="proof",
                 assumptions=["single partition, single RM", "quantities stay within int64 (generators far below)"],
                 manifest=dict(category="proof", text="Coq: node ledger invariant (allocated = sum of bound allocations, available = capacity - allocated - occupied) for every sequence of node operations of the model and bind-safety of every admitted scheduling decision; the same predicates run as oracles on every observed state/decision of the real scheduler", note=_NOTE)),
-    "C02": dict(engines=["core"], props_file="Props/C02.v", checkers=["Oracles/CoreC01.v", "Oracles/CoreModelCheck.v"], checker_fns={"core": "Oracles.CoreC01:c02_check_all"},
-                variants=["", "gangdeep", "gang", "reload", "swap", ""], coq_scan=["Core", "Oracles/CoreC01.v", "Props/C02.v", "Base"], level="proof",
+    "C02": dict(engines=["core", "reload"], props_file="Props/C02.v", checkers=["Oracles/CoreC01.v", "Oracles/CoreModelCheck.v", "Oracles/CoreC02Conf.v"], checker_fns={"core": "Oracles.CoreC01:c02_check_all", "reload": "Oracles.CoreC02Conf:c02conf_check_all"},
+                variants=["", "gangdeep", "gang", "reload", "swap", ""], coq_scan=["Core", "Oracles/CoreC01.v", "Oracles/CoreC02Conf.v", "Props/C02.v", "Base"], level="proof",
                 assumptions=["single partition, single RM"],
                 manifest=dict(category="proof", text="Coq: headroom / TryIncAllocatedResource soundness (an admitted increment keeps every ancestor within the types its maximum defines) for all queue trees and sparse vectors; oracle on every observed scheduling decision and forced-change classification", note=_NOTE)),
     "C03": dict(engines=["core"], props_file="Props/C03.v", extra_props=["Props/C03b.v"], checkers=["Oracles/CoreC01.v", "Oracles/CoreModelCheck.v"], checker_fns={"core": "Oracles.CoreC01:c03_check_all"},
